@@ -419,9 +419,19 @@ class BitSet(BaseBitSet):
 
     def invert_update(self, size):
         bits = self.bits
+        # The inverted set has to cover [0, size) even where that is beyond
+        # the current array
+        bytecount = bytes_for_bits(size)
+        if bytecount > len(bits):
+            bits.extend(0 for _ in xrange(bytecount - len(bits)))
         for i in xrange(len(bits)):
             bits[i] = ~bits[i] & 0xFF
-        self._zero_extra_bits(size)
+        # Zero out everything at or above "size"
+        full, spill = divmod(size, 8)
+        if full < len(bits):
+            bits[full] &= (1 << spill) - 1
+            for i in xrange(full + 1, len(bits)):
+                bits[i] = 0
 
     def union(self, other):
         if isinstance(other, BitSet):
